@@ -26,6 +26,13 @@ Extensions beyond the basic space (all within the statement's "every input seque
   * unique / redundant with key = the name of an attribute that some elements do not have (documented for unique_iter:
     "falling back on identity when the attribute is not present"; redundant is documented as the complement of unique);
   * chunk_ranges called with its optional arguments omitted (input_offset 0, overlap_size 0, align False).
+  * sources that are iterable only through __getitem__ (old sequence protocol) or only through __iter__ (unsized);
+  * sep given as other shapes of "an iterable of separators": tuple, dict, one-shot iterator / generator / map, an
+    object iterable through __getitem__ only;
+  * results are compared element by element with the input elements at the expected positions (same object, or equal
+    AND of the same type): split / strip / unique / bucketize / partition hand back the input's elements, not
+    stand-ins that merely compare equal (1 for 1.0, the strip value for an element that is == to it);
+  * a strip value that is == to a whole class of elements (the analogue of whitespace for str.strip()).
 
 Only parameters the statement calls valid are explored (size >= 1, count >= 1, 0 <= overlap < chunk_size,
 maxsplit None or >= 0, bool-valued keys for partition ...).
@@ -102,6 +109,65 @@ def fresh(x, j=0):
     return x
 
 
+class LegacySeq:
+    """A finite sequence that is iterable only through the old sequence protocol (__getitem__ + IndexError, __len__,
+    no __iter__): for / list() / itertools accept it, isinstance(x, collections.abc.Iterable) does not."""
+
+    def __init__(self, xs):
+        self._xs = list(xs)
+
+    def __getitem__(self, i):
+        return self._xs[i]
+
+    def __len__(self):
+        return len(self._xs)
+
+    def __repr__(self):
+        return 'LegacySeq(%r)' % (self._xs,)
+
+
+class IterOnly:
+    """A re-iterable collection that offers __iter__ and nothing else (no length, no indexing)."""
+
+    def __init__(self, xs):
+        self._xs = list(xs)
+
+    def __iter__(self):
+        return iter(list(self._xs))
+
+    def __repr__(self):
+        return 'IterOnly(%r)' % (self._xs,)
+
+
+class EqClass:
+    """A strip value / separator that is == to every member of a class of elements (what whitespace is to str.strip())."""
+
+    def __init__(self, members):
+        self._members = tuple(members)
+
+    def __eq__(self, other):
+        return isinstance(other, str) and other in self._members
+
+    __hash__ = None
+
+    def __repr__(self):
+        return 'EqClass%r' % (self._members,)
+
+
+def same(x, y):
+    """x is the element y as far as a caller can tell without `is`: the same object, or equal and of the same type."""
+    return x is y or (type(x) is type(y) and x == y)
+
+
+def same_seq(xs, ys):
+    return len(xs) == len(ys) and all(same(x, y) for x, y in zip(xs, ys))
+
+
+def src_elems(elems, seq, copy=False):
+    """The elements of the source make_src builds, position by position (fresh() is deterministic in value and type)."""
+    return [fresh(elems[i], j) if copy else elems[i] for j, i in enumerate(seq)]
+
+
 def make_src(elems, seq, form, copy=False):
     xs = [elems[i] for i in seq]
     if copy:
@@ -122,6 +188,10 @@ def make_src(elems, seq, form, copy=False):
         return dict(enumerate(xs)).values()
     if form == 'deque':
         return collections.deque(xs)
+    if form == 'legacy':                       # iterable through __getitem__ only
+        return LegacySeq(xs)
+    if form == 'iteronly':                     # iterable through __iter__ only, not sized
+        return IterOnly(xs)
     # the remaining presentations need distinct hashable items
     if form == 'dict':
         return dict.fromkeys(xs)
@@ -275,7 +345,14 @@ SPLIT_VARIANTS = {
     'set':      ('S', False),      # sep={'S', 'q'}
     'callable': ('S', False),      # sep=lambda x: x == 'S'
     'listNone': (None, False),     # sep=[None]  (the documented way to switch grouping off)
+    # further shapes of "an iterable of separators"
+    'tuple':    ('S', False),      # sep=('S',)
+    'iter':     ('S', False),      # sep=iter(['S'])           a one-shot iterator
+    'genexp':   ('S', False),      # sep=(x for x in ['S', 'q'])  a one-shot generator
+    'legacy':   ('S', False),      # sep=LegacySeq(['S', 'q']) iterable through __getitem__ only
+    'dict':     ('S', False),      # sep={'S': 1}              its keys
 }
+NEW_SEP_VARIANTS = ('tuple', 'iter', 'genexp', 'legacy', 'dict')
 
 
 def split_sep_arg(variant, sepval):
@@ -291,6 +368,16 @@ def split_sep_arg(variant, sepval):
         return lambda x: x == sepval
     if variant == 'listNone':
         return [None]
+    if variant == 'tuple':
+        return (sepval,)
+    if variant == 'iter':
+        return iter([sepval])
+    if variant == 'genexp':
+        return (x for x in [sepval, 'q'])
+    if variant == 'legacy':
+        return LegacySeq([sepval, 'q'])
+    if variant == 'dict':
+        return {sepval: 1}
     raise AssertionError(variant)
 
 
@@ -299,27 +386,42 @@ def ev_split(c):
     sepval, grouping = SPLIT_VARIANTS[variant]
     elems = pos_elems(form, sepval, c.get('elems'))
     chars = (' ' if grouping else ',', 'a', 'b')
-    kw = {}
-    if variant != 'default':
-        kw['sep'] = split_sep_arg(variant, elems[0])
-    if ms != 'unset':
-        kw['maxsplit'] = ms
+    def kw():        # built anew for every call: the separator collection may be a one-shot iterator
+        k = {}
+        if variant != 'default':
+            k['sep'] = split_sep_arg(variant, elems[0])
+        if ms != 'unset':
+            k['maxsplit'] = ms
+        return k
     copy = c.get('elems') in COPY_KINDS
     text = ''.join(chars[i] for i in seq)
     parts = text.split(None if grouping else ',', -1 if ms in ('unset', None) else ms)
     want = [[elems[chars.index(ch)] for ch in p] for p in parts]
+    # the same groups as source elements, position by position (a separator inside an unsplit remainder, an element
+    # that is merely == to another one: each is the element of the input at that position)
+    src, want_el, pos = src_elems(elems, seq, copy), [], 0
+    for p in parts:
+        if grouping:
+            pos = text.index(p, pos)
+        want_el.append(src[pos:pos + len(p)])
+        pos += len(p) + (0 if grouping else 1)
+    if [''.join(chars[elems.index(x)] for x in w) for w in want_el] != parts:
+        raise AssertionError('oracle: positions of the str.split parts')
     sepshape = 'sep=None' if grouping else 'sep=given'
     msshape = '' if ms in ('unset', None) else ',maxsplit'
-    it = drain(lambda: iu().split_iter(make_src(elems, seq, form, copy), **kw))
+    it = drain(lambda: iu().split_iter(make_src(elems, seq, form, copy), **kw()))
     if runaway(it):
         return [('C09|fn:split_iter|terminates', 'at most %d groups' % len(want), 'more than %d' % LIMIT)]
-    lst = call(iu().split, make_src(elems, seq, form, copy), **kw)
+    lst = call(iu().split, make_src(elems, seq, form, copy), **kw())
     if not (isinstance(lst, list) and all(isinstance(g, (list, tuple)) and all(any(x is e or x == e for e in elems) for x in g)
                                           for g in lst)):
         return [('C09|fn:split|groups-are-lists-of-input-elements(%s)'
                  % ('maxsplit=0' if ms == 0 else sepshape + msshape), show(want), show(lst))]
     if [list(g) for g in lst] != want:
         return [('C09|fn:split|result(%s%s)' % (sepshape, msshape), show(want), show(lst))]
+    if not (len(lst) == len(want_el) and all(same_seq(list(g), w) for g, w in zip(lst, want_el))):
+        return [('C09|fn:split|groups-hold-the-input-elements-themselves(%s%s)' % (sepshape, msshape),
+                 show([[repr(x) for x in w] for w in want_el]), show([[repr(x) for x in g] for g in lst]))]
     if it != lst:
         return [('C09|fn:split_iter|same-items-as-list-form', show(lst), show(it))]
     return []
@@ -330,10 +432,14 @@ def ev_split2(c):
     seq, form, variant, ms = c['seq'], c['form'], c['sep'], c['maxsplit']
     elems = ('S', 'T', 'a', 'b')
     chars = (',', ',', 'a', 'b')
-    sep = {'S', 'T'} if variant == 'set2' else (lambda x: x in ('S', 'T'))
-    kw = {'sep': sep}
-    if ms != 'unset':
-        kw['maxsplit'] = ms
+    def kw():        # built anew for every call: the separator collection may be a one-shot iterator
+        sep = {'set2': lambda: {'S', 'T'}, 'callable2': lambda: (lambda x: x in ('S', 'T')),
+               'iter2': lambda: iter(['S', 'T']), 'map2': lambda: map(str.upper, 'st'),
+               'legacy2': lambda: LegacySeq(['S', 'T'])}[variant]()
+        k = {'sep': sep}
+        if ms != 'unset':
+            k['maxsplit'] = ms
+        return k
     # the separators inside an unsplit remainder keep their identity: compare position-wise
     text = ''.join(chars[i] for i in seq)
     parts = text.split(',', -1 if ms in ('unset', None) else ms)
@@ -342,10 +448,10 @@ def ev_split2(c):
         want.append([elems[seq[pos + j]] for j in range(len(p))])
         pos += len(p) + 1
     msshape = '' if ms in ('unset', None) else ',maxsplit'
-    it = drain(lambda: iu().split_iter(make_src(elems, seq, form), **kw))
+    it = drain(lambda: iu().split_iter(make_src(elems, seq, form), **kw()))
     if runaway(it):
         return [('C09|fn:split_iter|terminates', 'at most %d groups' % len(want), 'more than %d' % LIMIT)]
-    lst = call(iu().split, make_src(elems, seq, form), **kw)
+    lst = call(iu().split, make_src(elems, seq, form), **kw())
     if not (isinstance(lst, list) and all(isinstance(g, (list, tuple)) and all(x in elems for x in g) for g in lst)):
         return [('C09|fn:split|groups-are-lists-of-input-elements(%s)'
                  % ('maxsplit=0' if ms == 0 else 'sep=given' + msshape), show(want), show(lst))]
@@ -368,15 +474,29 @@ STRIP_VARIANTS = {
 
 def ev_strip(c):
     fn, seq, form, variant = c['fn'], c['seq'], c['form'], c['strip_value']
-    elems = pos_elems(form, STRIP_VARIANTS[variant], c.get('elems'))
-    chars = (' ' if variant != 'value' else ',', 'a', 'b')
-    args = () if variant == 'default' else (elems[0],)
-    text = ''.join(chars[i] for i in seq)
-    stripped = getattr(text, fn)(chars[0])
-    if variant != 'value' and stripped != getattr(text, fn)():
-        raise AssertionError('oracle: strip() and strip(" ") differ')
+    kind = c.get('elems')
+    if kind == 'eqclass':
+        # the strip value is == to a class of elements, as whitespace is for str.strip(): the oracle is str.strip()
+        # without argument on the very same characters
+        elems = chars = (' ', '\t', 'a')
+        args = (EqClass(elems[:2]),)
+        text = ''.join(chars[i] for i in seq)
+        stripped = getattr(text, fn)()
+    else:
+        elems = pos_elems(form, STRIP_VARIANTS[variant], kind)
+        chars = (' ' if variant != 'value' else ',', 'a', 'b')
+        args = () if variant == 'default' else (elems[0],)
+        text = ''.join(chars[i] for i in seq)
+        stripped = getattr(text, fn)(chars[0])
+        if variant != 'value' and stripped != getattr(text, fn)():
+            raise AssertionError('oracle: strip() and strip(" ") differ')
     want = [elems[chars.index(ch)] for ch in stripped]
-    copy = c.get('elems') in COPY_KINDS
+    copy = kind in COPY_KINDS
+    # the same result as elements of the source, position by position
+    lo = 0 if fn == 'rstrip' else len(text) - len(text.lstrip(*((chars[0],) if kind != 'eqclass' else ())))
+    want_el = src_elems(elems, seq, copy)[lo:lo + len(stripped)]
+    if text[lo:lo + len(stripped)] != stripped:
+        raise AssertionError('oracle: position of the stripped text')
     I = iu()
     it = drain(lambda: getattr(I, fn + '_iter')(make_src(elems, seq, form, copy), *args))
     if runaway(it):
@@ -385,6 +505,9 @@ def ev_strip(c):
     got = list(lst) if isinstance(lst, (list, tuple)) else lst
     if got != want:
         return [('C09|fn:%s|result' % fn, show(want), show(lst))]
+    if not same_seq(got, want_el):
+        return [('C09|fn:%s|result-holds-the-input-elements-themselves' % fn, show([repr(x) for x in want_el]),
+                 show([repr(x) for x in got]))]
     if it != lst:
         return [('C09|fn:%s_iter|same-items-as-list-form' % fn, show(lst), show(it))]
     return []
@@ -502,20 +625,31 @@ def ev_keyed(c):
         # a re-iterable container: one object serves every call; the input sequence is what iterating it gives
         # (for sets: whatever order this very object has)
         obj = make_src(items, seq, form, copy)
-        seq = labs(list(obj))
+        src_list = list(obj)
+        seq = labs(src_list)
         if not all(isinstance(i, int) for i in seq):
             raise AssertionError('harness: container presentation does not iterate over the input items')
         src = lambda: obj                            # noqa
     else:
         src = lambda: make_src(items, seq, form, copy)     # noqa
+        src_list = src_elems(items, seq, copy)
     seqkeys = [keys[i] for i in seq]
 
+    def themselves(name, groups, positions):
+        """Every result list holds the very elements of the input at the expected positions (not merely == ones)."""
+        for g, ps in zip(groups, positions):
+            if not same_seq(list(g), [src_list[p] for p in ps]):
+                return [('C09|fn:%s|result-holds-the-input-elements-themselves%s' % (name, shape),
+                         show([repr(src_list[p]) for p in ps]), show([repr(x) for x in g]))]
+        return []
+
     if fn == 'unique':
-        want, seen = [], []
-        for i in seq:
+        want, seen, want_pos = [], [], []
+        for p, i in enumerate(seq):
             if keys[i] not in seen:
                 seen.append(keys[i])
                 want.append(i)
+                want_pos.append(p)
         it = drain(lambda: I.unique_iter(src(), **kw))
         if runaway(it):
             return [('C09|fn:unique_iter|terminates', 'at most %d items' % len(want), 'more than %d' % LIMIT)]
@@ -523,9 +657,12 @@ def ev_keyed(c):
         got = labs(lst) if isinstance(lst, (list, tuple)) else lst
         if got != want:
             return [('C09|fn:unique|first-occurrences%s' % shape, want, show(got))]
+        out = themselves('unique', [lst], [want_pos])
+        if out:
+            return out
         if not (isinstance(it, list) and labs(it) == got):
             return [('C09|fn:unique_iter|same-items-as-list-form', show(got), show(it))]
-        return []
+        return themselves('unique_iter', [it], [want_pos])
 
     if fn == 'redundant':
         groups = c['groups']
@@ -558,7 +695,8 @@ def ev_keyed(c):
             got = {k: labs(v) for k, v in res.items()}
         if got != want:
             return [('C09|fn:bucketize|buckets%s' % shape, show(want), show(got))]
-        return []
+        ks = list(res)
+        return themselves('bucketize', [res[k] for k in ks], [[p for p, i in enumerate(seq) if keys[i] == k] for k in ks])
 
     if fn == 'partition':
         want = ([i for i in seq if keys[i] is True], [i for i in seq if keys[i] is False])
@@ -568,7 +706,7 @@ def ev_keyed(c):
             got = (labs(res[0]), labs(res[1]))
         if got != want:
             return [('C09|fn:partition|truthy-falsy-lists%s' % shape, show(want), show(got))]
-        return []
+        return themselves('partition', res, [[p for p, i in enumerate(seq) if keys[i] is b] for b in (True, False)])
     raise AssertionError(fn)
 
 
@@ -679,7 +817,7 @@ def bounds(tier):
 
 FORMS5 = ('list', 'tuple', 'gen', 'str', 'bytes')
 FORMS3 = ('list', 'tuple', 'gen')
-CONT_ANY = ('values', 'deque')                                   # present any sequence
+CONT_ANY = ('values', 'deque', 'legacy', 'iteronly')                                  # present any sequence
 CONT_DISTINCT = ('dict', 'odict', 'keys', 'set', 'frozenset')    # present sequences of distinct hashable items
 CONT_FORMS = CONT_ANY + CONT_DISTINCT
 SHORT_FORMS = CONT_ANY + ('iter',)                               # further presentations of any sequence, shorter bound
@@ -723,11 +861,13 @@ def split_shards(B):
     out = []
     for v in SPLIT_VARIANTS:
         forms = FORMS3 if SPLIT_VARIANTS[v][0] is None else FORMS5
+        if v in NEW_SEP_VARIANTS:      # the shape of the separator collection matters, not the presentation of the source
+            forms = ('list', 'gen', 'str', 'bytes') if v in ('iter', 'legacy') else ('list', 'bytes')
         for f in forms:
             if f == 'bytes' and v == 'set':
                 continue           # {44, 'q'}: nothing new
             out.append((v, f))
-    out += [(v, f) for v in SPLIT_VARIANTS for f in SHORT_FORMS]
+    out += [(v, f) for v in SPLIT_VARIANTS for f in SHORT_FORMS if v not in NEW_SEP_VARIANTS]
     # unhashable elements: a single separator value is compared with ==, a callable does what it likes; a collection
     # of separators is looked up by hash and therefore not applicable
     out += [(v, f, 'unhashable') for v in ('default', 'None', 'value', 'callable') for f in ('list', 'gen')]
@@ -739,7 +879,8 @@ def split_shards(B):
 def gen_split(B, vf):
     v, form = vf[:2]
     extra = {'elems': vf[2]} if len(vf) > 2 else {}
-    for seq in seqs(3, B['Ls'] - SHORTER if (extra or form in SHORT_FORMS) else B['Ls']):
+    short = extra or form in SHORT_FORMS or (v in NEW_SEP_VARIANTS and (v, form) not in (('iter', 'list'), ('legacy', 'list')))
+    for seq in seqs(3, B['Ls'] - SHORTER if short else B['Ls']):
         nt = 0 in seq and len(set(seq)) > 1
         for ms in B['maxsplits']:
             yield dict({'fn': 'split', 'seq': seq, 'form': form, 'sep': v, 'maxsplit': ms}, **extra), nt
@@ -756,7 +897,8 @@ def gen_split2(B, vf):
 def gen_strip(B, arg):
     form, fn = arg[:2]
     extra = {'elems': arg[2]} if len(arg) > 2 else {}
-    variants = ('value',) if (form in ('str', 'bytes') or extra.get('elems') in COPY_KINDS) else ('default', 'None', 'value')
+    variants = ('value',) if (form in ('str', 'bytes') or extra.get('elems') in COPY_KINDS + ('eqclass',)) \
+        else ('default', 'None', 'value')
     for seq in seqs(3, B['Ls'] - SHORTER if (extra or form in SHORT_FORMS) else B['Ls']):
         nt = 0 in seq and len(set(seq)) > 1
         for v in variants:
@@ -853,10 +995,12 @@ PARTS = {
                                                    for f in FORMS5 + SHORT_FORMS]),
     'split': (gen_split, split_shards),
     'split(two separators)': (gen_split2, lambda B: [('set2', 'list'), ('callable2', 'list'), ('set2', 'gen'),
-                                                      ('callable2', 'tuple')]),
+                                                      ('callable2', 'tuple'),
+                                                      ('iter2', 'list'), ('map2', 'gen'), ('legacy2', 'list')]),
     'strip+lstrip+rstrip': (gen_strip, lambda B: [(f, fn) for fn in ('strip', 'lstrip', 'rstrip') for f in FORMS5 + SHORT_FORMS]
                             + [(f, fn, k) for k in ('unhashable',) + COPY_KINDS for fn in ('strip', 'lstrip', 'rstrip')
-                               for f in ('list', 'gen')]),
+                               for f in ('list', 'gen')]
+                            + [(f, fn, 'eqclass') for fn in ('strip', 'lstrip', 'rstrip') for f in ('str', 'list', 'gen')]),
     'unique+redundant+bucketize+partition': (gen_keyed, lambda B: KEYED),
     'chunk_ranges': (gen_ranges, lambda B: [(al, n) for n in range(1, B['ranges']['chunk_size'] + 1)
                                             for al in (False, True)]),
@@ -929,7 +1073,7 @@ def run(ctx):
             'every sequence of length 0..%d over 3 symbols {SEP, a, b}' % B['L'],
         'split, strip, lstrip, rstrip': 'every sequence of length 0..%d over 3 symbols {SEP, a, b}' % B['Ls'],
         'presentations': 'list, tuple, one-shot generator, str, bytes (str/bytes where the elements are characters); '
-                         'dict values view, deque and list iterator (iter(list)) up to a length %d shorter; keyed helpers also over dict, OrderedDict, '
+                         'dict values view, deque, a __getitem__-only sequence, an __iter__-only iterable and list iterator (iter(list)) up to a length %d shorter; keyed helpers also over dict, OrderedDict, '
                          'dict keys view, set, frozenset holding every sequence of distinct hashable items' % SHORTER,
         'unhashable elements': 'split (sep omitted / None / a single value / a callable) and strip, lstrip, rstrip over '
                                '{SEP, a list, a dict}, list and generator, length 0..%d' % (B['Ls'] - SHORTER),
@@ -942,7 +1086,14 @@ def run(ctx):
         'attribute-name key with elements lacking the attribute': 'unique, redundant over 5 records (keys A, A, itself, itself, '
                                                                   'None) and over {3, 5, Fraction(1, 2), "x", "y"} with '
                                                                   'key="denominator", length 0..%d' % B['Lkey'],
-        'sep': sorted(SPLIT_VARIANTS) + ['set of two separators', 'callable accepting two separators'],
+        'sep': sorted(SPLIT_VARIANTS) + ['set of two separators', 'callable accepting two separators',
+                                         'one-shot iterator / map / __getitem__-only sequence of two separators'],
+        'sep collection shapes tuple, iter, genexp, legacy, dict': 'sources list and bytes (iter, legacy: also generator and '
+                                                                   'str), length 0..%d; iter and legacy with a list source '
+                                                                   '0..%d' % (B['Ls'] - SHORTER, B['Ls']),
+        'strip value equal to a class of elements': 'strip, lstrip, rstrip over {" ", "\\t", "a"} (str, list, generator), '
+                                                    'strip value == " " and == "\\t", oracle str.strip() without argument, '
+                                                    'length 0..%d' % (B['Ls'] - SHORTER),
         'maxsplit': list(B['maxsplits']),
         'two-separator split': 'every sequence of length 0..%d over 4 symbols {S, T, a, b}' % B['L2'],
         'keyed helpers': 'every sequence of length 0..%d over 5 items with keys A,A,B,B,C (tuples, unhashable lists, objects; '
@@ -966,6 +1117,8 @@ def run(ctx):
         'key = attribute name and an element without that attribute: the element is its own key for unique (documented) '
         'and redundant (documented as the complement of unique); bucketize / partition document nothing and are not '
         'explored on such inputs',
+        'split / strip / unique / bucketize / partition: a result element must be the input element at the expected position '
+        'as far as ==, type() and `is` can tell (the same object, or an equal object of the same type)',
         'window / chunk container types are not compared except that chunks of a str are str and chunks of bytes are bytes '
         '(their concatenation must give back the input)',
     ]
